@@ -14,10 +14,11 @@
 
    PROVED for the process-kill model (all completed effects persist; the last write may be torn), every
    configuration incl. every fsync policy: C01_kill, C01_kill_op, C01_restart_idem.
-   NOT PROVED (power loss under fsync-always): see the comment before C01_power_always_partial. *)
+   PROVED for power loss under fsync-always, EVERY loss choice of the model: C01_power_always.
+   NOT modelled in Coq: the periodic-fsync clause (decided by the driver's directed scenario). *)
 From Coq Require Import List NArith ZArith Bool.
 From Kyro Require Import Model.Amap Model.Backend Model.Crash Model.WalBytes
-  Proofs.AmapProofs Proofs.BackendProofs Proofs.CrashProofs Proofs.WalBytesProofs.
+  Proofs.AmapProofs Proofs.BackendProofs Proofs.CrashProofs Proofs.PowerProofs Proofs.WalBytesProofs.
 Import ListNotations.
 Open Scope N_scope.
 
@@ -83,21 +84,42 @@ Proof.
 Qed.
 
 (* ---- power loss under fsync-always -------------------------------------------------------------------
-   FULL STATEMENT (not proved):
-     Theorem C01_power_always : forall c ops n (l : loss),
-       wf_cfg c = true -> norm_ok c -> c_fsync c = FsAlways -> known_c01 c ops n = false ->
-       exists r, start c (crash_power c ops n l) = SOk r /\
-                 (st_store r = cp_acked (crash_hist c ops n false) \/
-                  st_store r = cp_inflight (crash_hist c ops n false)).
-   where `crash_power` (Model/Crash.v) keeps per inode the content versions since its last fsync and the
-   name-space versions since the last directory fsync, and `l` chooses how many un-synced steps survived.
-   MISSING: (1) the simulation lemma pview (papply_all ..) loss_none ~ apply_effs; (2) the discipline lemma
-   "under FsAlways every write to a file is fsynced before the directory operation that publishes it, and
-   every block of directory operations ends with EFsyncDir", per effect block of every operation.
-   What IS established: the statement is evaluated (vm_compute) for every crash index and the four extreme
-   loss choices on the example below and, on every run of the check, on every seeded fsync-always history
-   (bounded evaluation of the model, not a proof), and the driver enumerates the power-loss views of the
-   REAL engine's traces. *)
+   `crash_power c ops n l` (Model/Crash.v): the directory after a power loss before global effect index n,
+   where the power-loss model keeps per inode the content versions since its last fsync/fdatasync and the
+   name-space versions since the last directory fsync, and the loss choice `l` says how many un-synced steps
+   survived — per inode and for the directory, in order.  `l` is universally quantified: all-lost,
+   data-only-lost, directory-only-lost and nothing-lost (the views the driver materialises) are instances.
+   The excluded class `known_power` is C01-batch-delete-partial as it appears under power loss: the frames of
+   a batch_delete of >= 2 live ids stay un-synced until its fsync completes, so the class extends to the
+   instant "all frames written, fsync not yet done" (`C01_power_batch_unsynced_refuted`). *)
+Theorem C01_power_always : forall (c : cfg) (ops : list op) (n : nat) (l : loss),
+  wf_cfg c = true -> norm_ok c -> c_fsync c = FsAlways -> known_power c ops n = false ->
+  exists r, start c (crash_power c ops n l) = SOk r /\
+            (st_store r = cp_acked (crash_hist c ops n false) \/
+             st_store r = cp_inflight (crash_hist c ops n false)).
+Proof. exact power_hist. Qed.
+
+(* the un-lossy part of the model is exact: the name-space / inode bookkeeping simulates apply_eff *)
+Theorem C01_power_model_simulates : forall (es : list eff) (P : pfs) (d : dir),
+  WF P -> Sim P d -> WF (papply_all P es) /\ Sim (papply_all P es) (apply_effs d es).
+Proof. exact sim_steps. Qed.
+
+(* crash index 17 of bd_ops: all three frames of the batch written, its fsync not done; the loss choice
+   keeps one un-synced step per inode: outside known_c01, inside known_power, and the property fails *)
+Theorem C01_power_batch_unsynced_refuted :
+  known_c01 bd_cfg bd_ops 17 = false /\ known_power bd_cfg bd_ops 17 = true /\
+  nth_error (init_effs ++ all_effs bd_cfg (init bd_cfg) bd_ops) 17 = Some (EFsync (NWal 1)) /\
+  exists r, start bd_cfg (crash_power bd_cfg bd_ops 17 (mkLoss 1000 (fun _ => 1%nat))) = SOk r /\
+            map fst (st_store r) = [2; 5] /\
+            map fst (cp_acked (crash_hist bd_cfg bd_ops 17 false)) = [2; 3; 5] /\
+            map fst (cp_inflight (crash_hist bd_cfg bd_ops 17 false)) = [5].
+Proof.
+  split; [vm_compute; reflexivity|]. split; [vm_compute; reflexivity|]. split; [vm_compute; reflexivity|].
+  eexists. split; [vm_compute; reflexivity|]. split; [vm_compute; reflexivity|]. split; vm_compute; reflexivity.
+Qed.
+
+(* evaluation of the same model on a history with rotation, compaction, tombstone compaction and restarts
+   (kept as a regression example; superseded by C01_power_always) *)
 Definition pw_norm (v : vec) : option vec :=
   match v with [] => None | _ :: _ => Some (map (fun _ => 1%Z) v) end.
 Definition pw_cfg : cfg := mkCfg Cosine 2 2 1 3 FsAlways pw_norm (fun _ => true).
@@ -140,5 +162,8 @@ Print Assumptions C01_restart_idem.
 Print Assumptions C01_first_start.
 Print Assumptions C01_torn_write_reads_prefix.
 Print Assumptions C01_batch_delete_partial_refuted.
+Print Assumptions C01_power_always.
+Print Assumptions C01_power_model_simulates.
+Print Assumptions C01_power_batch_unsynced_refuted.
 Print Assumptions C01_power_always_partial.
 Print Assumptions C01_nonvacuous.
